@@ -26,7 +26,29 @@ def name_repr(comps, kind):
         return [memoryview(bytes(c)) for c in formal]
     if kind == 'wire':
         return bytes(enc.Name.to_bytes(formal))
+    if kind == 'wirebuf':
+        # the encoded name in a scratch buffer which the caller reuses afterwards (see scribble())
+        return bytearray(enc.Name.to_bytes(formal))
+    if kind == 'mutbuf':
+        # components as writable views into one scratch buffer which the caller reuses afterwards
+        buf = bytearray(b''.join(bytes(c) for c in formal))
+        out, off = [], 0
+        for c in formal:
+            out.append(memoryview(buf)[off:off + len(c)])
+            off += len(c)
+        return out
     raise ValueError(kind)
+
+
+def scribble(rep):
+    """The caller reuses the scratch buffer it passed a name in: overwrite it."""
+    if isinstance(rep, bytearray):
+        for i in range(len(rep)):
+            rep[i] = 0x2a
+    elif isinstance(rep, list):
+        for c in rep:
+            if isinstance(c, memoryview) and not c.readonly:
+                c[:] = b'\x2a' * len(c)
 
 
 class FibRun:
@@ -168,6 +190,7 @@ class FibRun:
                 ev['raised'] = False
             except ValueError:
                 ev['raised'] = True
+            scribble(rep)
             loop.settle(timers_now=False)
         elif a == 'Detach':
             rep = name_repr(ev['n'], ev.get('repr', 'uri'))
@@ -178,6 +201,7 @@ class FibRun:
                     self.app.unset_interest_filter(rep)
             except Exception as ex:  # noqa
                 self.bg.append('detach:' + type(ex).__name__)
+            scribble(rep)
             loop.settle(timers_now=False)
         elif a == 'RecvInterest':
             it = ev['it']
@@ -192,7 +216,10 @@ class FibRun:
                 signer = DigestSha256Signer()
             # life 400 ticks stands for "no InterestLifetime element": the default of 4000 ms applies
             life_ms = None if it['life'] == 400 else it['life'] * TICK_MS
-            w, fullname = enc.make_interest(nm(it['name']), enc.InterestParam(lifetime=life_ms, nonce=NONCE0 + i),
+            # components below every attached prefix do not change the route; unusual ones must not disturb delivery
+            sfx = [[], [enc.Component.from_bytes(b'\x01' + bytes(8), enc.Component.TYPE_SEGMENT)], [enc.Component.from_bytes(b'')],
+                   [enc.Component.from_bytes(b'x', 65535)]][i % 4]
+            w, fullname = enc.make_interest(enc.Name.from_str(nm(it['name'])) + sfx, enc.InterestParam(lifetime=life_ms, nonce=NONCE0 + i),
                                             app_param, signer=signer, need_final_name=True)
             w = bytearray(w)
             if (it['params'] or it['signed']) and not it['digOk']:
@@ -232,7 +259,9 @@ class FibRun:
             if fn is None or info is None:
                 self.rets.append({'i': i, 'ret': 'no-reply-callback'})
             else:
-                dw = bytes(enc.make_data(info['fullname'], enc.MetaInfo(), b'R%d-%d' % (i, k)))
+                # every other reply is a full-size segment
+                body = b'R%d-%d' % (i, k) + (b'.' * 1500 if (i + k) % 2 else b'')
+                dw = bytes(enc.make_data(info['fullname'], enc.MetaInfo(), body))
                 self.sent_data[(i, k)] = dw
                 try:
                     r = fn(dw)
@@ -277,9 +306,11 @@ class DispatcherRun:
         if a in ('Attach', 'AttachDup'):
             h = ev['h']
             try:
-                self.d.register(name_repr(ev['n'], ev['repr']), lambda name, param, app_param, h=h: self.handled.append({'h': h, 'i': param.nonce - NONCE0}))
+                rep = name_repr(ev['n'], ev['repr'])
+                self.d.register(rep, lambda name, param, app_param, h=h: self.handled.append({'h': h, 'i': param.nonce - NONCE0}))
                 ev['raised'] = False
                 self.natt += 1
+                scribble(rep)
             except ValueError:
                 ev['raised'] = True
         elif a == 'Detach':
